@@ -11,9 +11,10 @@ is compared with an abstract block store after every call, and the card's own li
 Property theorems only; proofs in `Sdmmc.Lemmas.SdSession*` (on top of `SdCardSim2*`).
 
 Hypotheses of `session_correct`, precisely.
-* Card: freshly powered `Spec.Card.mk kind csd ncr nac busy initPolls`, any kind, any register.
+* Card: freshly powered `Spec.Card.mk kind csd ncr nac busy initPolls gap`, any kind, any register.
 * Timing: `ncr ≤ DEFAULT_COMMAND_RETRIES`, `initPolls ≤ DEFAULT_COMMAND_RETRIES`,
-  `nac ≤ DEFAULT_READ_RETRIES`, `busy ≤ DEFAULT_WRITE_RETRIES`, and
+  `nac ≤ DEFAULT_READ_RETRIES`, `busy ≤ DEFAULT_WRITE_RETRIES`, `gap ≤ 1` (N_BR: bytes of 0xFF
+  between the stop token of a multiple-block write and the busy signal), and
   `busy ≤ DEFAULT_COMMAND_RETRIES ∨ MultiReadsLast calls`: a multiple-block read leaves the card
   busy for `busy` bytes (CMD12 is answered R1b and the driver does not wait), and the next command
   waits with the command budget only — so either the card's busy time fits that budget, or no
@@ -35,10 +36,12 @@ not proved, because what happens depends on the data):
   `i ↦ 3 + i`: 435 violations, 20 commands executed; a block beginning with the six bytes of
   `frame 24 5`, 0xFF 0xFF 0xFE: the card ends up receiving a data block for block 5).  `write`
   returns `WriteError`.
-* a multiple-block write running over the end of the card: the blocks inside are stored, the
-  first one outside gets the data response "write error", `write` returns `WriteError` WITHOUT
-  sending the stop token: the card is left inside the multiple-block write (`phase = recvToken`),
-  and the next command frame is a violation ("command frame while the card waits for a data token").
+* a multiple-block write running over the end of the card is now covered by a theorem
+  (`session_write_out_of_range`): the blocks inside are stored, the first one outside gets the
+  data response "write error", the driver still sends the stop sequence and returns `WriteError`;
+  no violation, the session can go on.  (Before the second repair of the driver the error skipped
+  the stop token: the card was left inside the multiple-block write, `phase = recvToken`, and the
+  next command frame was a violation, "command frame while the card waits for a data token".)
 -/
 import Sdmmc.Props.C12EndToEnd
 import Sdmmc.Lemmas.SdSessionRange
@@ -120,10 +123,12 @@ def MultiReadsLast : List Call → Prop
 /-- What holds between the calls of a session: the driver knows the card's kind; the card is
 settled, still the same card, checks CRCs exactly when the driver uses them, holds the abstract
 store, and has recorded no violation. -/
-def SessionState (kind : Kind) (csd : List UInt8) (ncr nac busy : Nat) (st : Store) (s : St Card) : Prop :=
+def SessionState (kind : Kind) (csd : List UInt8) (ncr nac busy gap : Nat) (st : Store) (s : St Card) : Prop :=
   s.cardType = some (typeOfKind kind) ∧ Settled s.bus ∧ s.bus.kind = kind ∧
   s.bus.capacity = capacityOfCsd csd ∧ s.bus.csd = csd ∧ s.bus.ncr = ncr ∧ s.bus.nac = nac ∧ s.bus.busy = busy ∧
+  s.bus.stopGap = gap ∧
   s.bus.crcOn = s.useCrc ∧ (∀ j, getBlock s.bus j = st j) ∧ s.bus.violations = []
+
 
 /-! Glue to the lemma files (same definitions there). -/
 
@@ -152,13 +157,13 @@ private theorem multiReadsLast_iff (calls : List Call) :
   induction calls with
   | nil => exact Iff.rfl
   | cons c cs ih => simp only [MultiReadsLast, Lemmas.SdSession.MultiReadsLast, isMultiRead_eq, ih]
-private theorem sessionState_iff (kind : Kind) (csd : List UInt8) (ncr nac busy : Nat) (st : Store) (s : St Card) :
-    SessionState kind csd ncr nac busy st s ↔ Lemmas.SdSession.SessInv kind csd ncr nac busy st s := by
+private theorem sessionState_iff (kind : Kind) (csd : List UInt8) (ncr nac busy gap : Nat) (st : Store) (s : St Card) :
+    SessionState kind csd ncr nac busy gap st s ↔ Lemmas.SdSession.SessInv kind csd ncr nac busy gap st s := by
   constructor
-  · rintro ⟨h1, ⟨a, b, c, d, e, f⟩, h3, h4, h5, h6, h7, h8, h9, h10, h11⟩
-    exact ⟨⟨a, b, c, d, e, f⟩, h3, h4, h5, h6, h7, h8, h9, by rw [← typeOfKind_eq]; exact h1, h10, h11⟩
-  · rintro ⟨⟨a, b, c, d, e, f⟩, h3, h4, h5, h6, h7, h8, h9, h1, h10, h11⟩
-    exact ⟨by rw [typeOfKind_eq]; exact h1, ⟨a, b, c, d, e, f⟩, h3, h4, h5, h6, h7, h8, h9, h10, h11⟩
+  · rintro ⟨h1, ⟨a, b, c, d, e, f⟩, h3, h4, h5, h6, h7, h8, hg, h9, h10, h11⟩
+    exact ⟨⟨a, b, c, d, e, f⟩, h3, h4, h5, h6, h7, h8, hg, h9, by rw [← typeOfKind_eq]; exact h1, h10, h11⟩
+  · rintro ⟨⟨a, b, c, d, e, f⟩, h3, h4, h5, h6, h7, h8, hg, h9, h1, h10, h11⟩
+    exact ⟨by rw [typeOfKind_eq]; exact h1, ⟨a, b, c, d, e, f⟩, h3, h4, h5, h6, h7, h8, hg, h9, h10, h11⟩
 
 /-! ## Every session -/
 
@@ -166,19 +171,20 @@ private theorem sessionState_iff (kind : Kind) (csd : List UInt8) (ncr nac busy 
 returns `Ok` with exactly the abstract device's answer; afterwards the card's memory is the
 abstract store; and the card has recorded no protocol violation in the whole session — everything
 the driver sent, identification included, was a legal SPI-mode conversation in the card's
-judgement.  (For the state after every single call, see `session_every_step`.) -/
-theorem session_correct (kind : Kind) (csd : List UInt8) (ncr nac busy initPolls : Nat)
+judgement.  For a card that takes no or one byte to signal busy after the stop token (`gap ≤ 1`).
+(For the state after every single call, see `session_every_step`.) -/
+theorem session_correct (kind : Kind) (csd : List UInt8) (ncr nac busy initPolls gap : Nat)
     (hncr : ncr ≤ DEFAULT_COMMAND_RETRIES) (hnac : nac ≤ DEFAULT_READ_RETRIES)
-    (hbusy : busy ≤ DEFAULT_WRITE_RETRIES) (hpolls : initPolls ≤ DEFAULT_COMMAND_RETRIES)
-    (s : St Card) (hbus : s.bus = Spec.Card.mk kind csd ncr nac busy initPolls) (hct : s.cardType = none)
+    (hbusy : busy ≤ DEFAULT_WRITE_RETRIES) (hpolls : initPolls ≤ DEFAULT_COMMAND_RETRIES) (hgap : gap ≤ 1)
+    (s : St Card) (hbus : s.bus = Spec.Card.mk kind csd ncr nac busy initPolls gap) (hct : s.cardType = none)
     (calls : List Call) (hlegal : ∀ c ∈ calls, Legal kind csd c)
     (hbr : busy ≤ DEFAULT_COMMAND_RETRIES ∨ MultiReadsLast calls) :
     ∃ s', runSession cardBus calls s = (.ok (absRun kind csd emptyStore calls).1, s') ∧
       (∀ j, getBlock s'.bus j = (absRun kind csd emptyStore calls).2 j) ∧
       s'.bus.violations = [] ∧ s'.useCrc = s.useCrc ∧
-      (calls ≠ [] → SessionState kind csd ncr nac busy (absRun kind csd emptyStore calls).2 s') := by
-  obtain ⟨s', h, hm, hv, hu, hI⟩ := Lemmas.SdSession.session_fresh kind csd ncr nac busy initPolls hncr hnac hbusy
-    hpolls s hbus hct calls (fun c hc => (legal_iff kind csd c).1 (hlegal c hc))
+      (calls ≠ [] → SessionState kind csd ncr nac busy gap (absRun kind csd emptyStore calls).2 s') := by
+  obtain ⟨s', h, hm, hv, hu, hI⟩ := Lemmas.SdSession.session_fresh kind csd ncr nac busy initPolls gap hncr hnac
+    hbusy hpolls hgap s hbus hct calls (fun c hc => (legal_iff kind csd c).1 (hlegal c hc))
     (hbr.imp id (multiReadsLast_iff calls).1)
   rw [runSession_eq, absRun_eq]
   exact ⟨s', h, hm, hv, hu, fun hne => (sessionState_iff ..).2 (hI hne)⟩
@@ -187,14 +193,14 @@ theorem session_correct (kind : Kind) (csd : List UInt8) (ncr nac busy initPolls
 anywhere (`calls = pre ++ post`, `pre` non-empty); the driver runs `pre`, reaches a state in which
 the card's memory is the abstract store after `pre`, no violation is recorded and the session
 invariant holds; and from there it runs `post`. -/
-theorem session_every_step (kind : Kind) (csd : List UInt8) (ncr nac busy initPolls : Nat)
+theorem session_every_step (kind : Kind) (csd : List UInt8) (ncr nac busy initPolls gap : Nat)
     (hncr : ncr ≤ DEFAULT_COMMAND_RETRIES) (hnac : nac ≤ DEFAULT_READ_RETRIES)
-    (hbusy : busy ≤ DEFAULT_WRITE_RETRIES) (hpolls : initPolls ≤ DEFAULT_COMMAND_RETRIES)
-    (s : St Card) (hbus : s.bus = Spec.Card.mk kind csd ncr nac busy initPolls) (hct : s.cardType = none)
+    (hbusy : busy ≤ DEFAULT_WRITE_RETRIES) (hpolls : initPolls ≤ DEFAULT_COMMAND_RETRIES) (hgap : gap ≤ 1)
+    (s : St Card) (hbus : s.bus = Spec.Card.mk kind csd ncr nac busy initPolls gap) (hct : s.cardType = none)
     (pre post : List Call) (hpre : pre ≠ []) (hlegal : ∀ c ∈ pre ++ post, Legal kind csd c)
     (hbr : busy ≤ DEFAULT_COMMAND_RETRIES ∨ MultiReadsLast (pre ++ post)) :
     ∃ s₁ s₂, runSession cardBus pre s = (.ok (absRun kind csd emptyStore pre).1, s₁) ∧
-      SessionState kind csd ncr nac busy (absRun kind csd emptyStore pre).2 s₁ ∧
+      SessionState kind csd ncr nac busy gap (absRun kind csd emptyStore pre).2 s₁ ∧
       runSession cardBus post s₁ = (.ok (absRun kind csd (absRun kind csd emptyStore pre).2 post).1, s₂) ∧
       runSession cardBus (pre ++ post) s = (.ok (absRun kind csd emptyStore (pre ++ post)).1, s₂) := by
   have hpreMRL : ∀ (a b : List Call), MultiReadsLast (a ++ b) → MultiReadsLast a := by
@@ -206,9 +212,9 @@ theorem session_every_step (kind : Kind) (csd : List UInt8) (ncr nac busy initPo
       refine ⟨fun hm => ?_, ih h.2⟩
       have := h.1 hm
       exact List.append_eq_nil_iff.mp this |>.1
-  obtain ⟨s₁, h1, _, _, _, hI1⟩ := session_correct kind csd ncr nac busy initPolls hncr hnac hbusy hpolls s hbus hct
-    pre (fun c hc => hlegal c (List.mem_append_left _ hc)) (hbr.imp id (hpreMRL pre post))
-  obtain ⟨s₂, h2, _⟩ := session_correct kind csd ncr nac busy initPolls hncr hnac hbusy hpolls s hbus hct
+  obtain ⟨s₁, h1, _, _, _, hI1⟩ := session_correct kind csd ncr nac busy initPolls gap hncr hnac hbusy hpolls hgap
+    s hbus hct pre (fun c hc => hlegal c (List.mem_append_left _ hc)) (hbr.imp id (hpreMRL pre post))
+  obtain ⟨s₂, h2, _⟩ := session_correct kind csd ncr nac busy initPolls gap hncr hnac hbusy hpolls hgap s hbus hct
     (pre ++ post) hlegal hbr
   have happ := Lemmas.SdSession.runSession_append cardBus pre post s s₁ _ (by rw [← runSession_eq]; exact h1)
   rw [← runSession_eq, h2, ← runSession_eq] at happ
@@ -229,17 +235,17 @@ theorem session_every_step (kind : Kind) (csd : List UInt8) (ncr nac busy initPo
 
 /-- The first call of a session performs the identification: on the uninitialised driver
 `check_init` is `acquire`, which succeeds and establishes the session state for the empty store. -/
-theorem first_call_identifies (kind : Kind) (csd : List UInt8) (ncr nac busy initPolls : Nat)
+theorem first_call_identifies (kind : Kind) (csd : List UInt8) (ncr nac busy initPolls gap : Nat)
     (hncr : ncr ≤ DEFAULT_COMMAND_RETRIES) (hpolls : initPolls ≤ DEFAULT_COMMAND_RETRIES)
-    (s : St Card) (hbus : s.bus = Spec.Card.mk kind csd ncr nac busy initPolls) (hct : s.cardType = none) :
+    (s : St Card) (hbus : s.bus = Spec.Card.mk kind csd ncr nac busy initPolls gap) (hct : s.cardType = none) :
     checkInit cardBus s = acquire cardBus s ∧
-    ∃ s₀, acquire cardBus s = (.ok (), s₀) ∧ SessionState kind csd ncr nac busy emptyStore s₀ ∧
+    ∃ s₀, acquire cardBus s = (.ok (), s₀) ∧ SessionState kind csd ncr nac busy gap emptyStore s₀ ∧
       s₀.bus.busyLeft = 0 := by
   refine ⟨?_, ?_⟩
   · unfold checkInit
     rw [Lemmas.Sd.bind_ok (Lemmas.Sd.get_apply s)]
     simp only [hct, Option.isNone_none, if_true]
-  · obtain ⟨s₀, h, hI, hb, _⟩ := Lemmas.SdSession.acquire_inv kind csd ncr nac busy initPolls hncr hpolls s hbus
+  · obtain ⟨s₀, h, hI, hb, _⟩ := Lemmas.SdSession.acquire_inv kind csd ncr nac busy initPolls gap hncr hpolls s hbus
     exact ⟨s₀, h, (sessionState_iff ..).2 hI, hb⟩
 
 /-- … and later calls do not repeat it: in every state between the calls of a session
@@ -258,16 +264,38 @@ does not look at R1), or streams the blocks up to its end and then nothing; eith
 driver's wait for a data token runs out and the call returns `TimeoutReadBuffer` (after CMD12, for
 a multiple-block read).  The card's memory is unchanged, NO violation is recorded, and the session
 state still holds: the session can go on (the card is busy for `busy` bytes if CMD12 was sent). -/
-theorem session_read_out_of_range (kind : Kind) (csd : List UInt8) (ncr nac busy : Nat)
+theorem session_read_out_of_range (kind : Kind) (csd : List UInt8) (ncr nac busy gap : Nat)
     (hncr : ncr ≤ DEFAULT_COMMAND_RETRIES) (hnac : nac ≤ DEFAULT_READ_RETRIES)
     (st : Store) (hst : ∀ j, (st j).length = 512) (s : St Card)
-    (hS : SessionState kind csd ncr nac busy st s) (hbl : s.bus.busyLeft ≤ DEFAULT_COMMAND_RETRIES)
+    (hS : SessionState kind csd ncr nac busy gap st s) (hbl : s.bus.busyLeft ≤ DEFAULT_COMMAND_RETRIES)
     (n idx : Nat) (hn : n ≠ 0) (hadr : idx < addrLimit kind) (hoor : capacityOfCsd csd < idx + n) :
     ∃ s', call cardBus (.read n idx) s = (.err .TimeoutReadBuffer, s') ∧
-      SessionState kind csd ncr nac busy st s' ∧ s'.bus.busyLeft = (if n = 1 then 0 else busy) := by
+      SessionState kind csd ncr nac busy gap st s' ∧ s'.bus.busyLeft = (if n = 1 then 0 else busy) := by
   have hI := (sessionState_iff ..).1 hS
-  obtain ⟨s', h, hI', hb, _⟩ := Lemmas.SdSession.callOp_read_oor kind csd ncr nac busy hncr hnac st hst s hI hbl
+  obtain ⟨s', h, hI', hb, _⟩ := Lemmas.SdSession.callOp_read_oor kind csd ncr nac busy gap hncr hnac st hst s hI hbl
     n idx hn (by rw [← addrLimit_eq]; exact hadr) hoor
+  refine ⟨s', ?_, (sessionState_iff ..).2 hI', hb⟩
+  rw [Lemmas.SdSession.call_identified cardBus _ (by intro h; cases h) s _ hI.ct]
+  exact h
+
+/-- A multiple-block write that starts inside the card and runs over its end, between the calls of
+a session: the call returns `WriteError`; the blocks that fit are stored — the card's memory is the
+abstract store with exactly those blocks written — the stop sequence has been sent (the card is
+settled again, not waiting for data blocks, and not busy), NO violation is recorded, and the
+session state holds: the session can go on. -/
+theorem session_write_out_of_range (kind : Kind) (csd : List UInt8) (ncr nac busy gap : Nat)
+    (hncr : ncr ≤ DEFAULT_COMMAND_RETRIES) (hbusy : busy ≤ DEFAULT_WRITE_RETRIES) (hgap : gap ≤ 1)
+    (st : Store) (s : St Card)
+    (hS : SessionState kind csd ncr nac busy gap st s) (hbl : s.bus.busyLeft ≤ DEFAULT_COMMAND_RETRIES)
+    (blocks : List Bytes) (idx : Nat) (hn : blocks.length ≠ 1) (hadr : idx < addrLimit kind)
+    (hidx : idx < capacityOfCsd csd) (hoor : capacityOfCsd csd < idx + blocks.length)
+    (hlen : ∀ b ∈ blocks, b.length = 512) :
+    ∃ s', call cardBus (.write blocks idx) s = (.err .WriteError, s') ∧
+      SessionState kind csd ncr nac busy gap (writeStore st idx (blocks.take (capacityOfCsd csd - idx))) s' ∧
+      s'.bus.busyLeft = 0 := by
+  have hI := (sessionState_iff ..).1 hS
+  obtain ⟨s', h, hI', hb, _⟩ := Lemmas.SdSession.callOp_write_oor kind csd ncr nac busy gap hncr hbusy hgap st s hI hbl
+    blocks idx hn (by rw [← addrLimit_eq]; exact hadr) hidx hoor hlen
   refine ⟨s', ?_, (sessionState_iff ..).2 hI', hb⟩
   rw [Lemmas.SdSession.call_identified cardBus _ (by intro h; cases h) s _ hI.ct]
   exact h
@@ -326,10 +354,10 @@ gives the same answers — the same blocks read, in the same order, and the same
 card-type answers — and the same final card memory; neither session records a violation.  (The
 expanded session needs no hypothesis about `busy` beyond the write budget: it contains no
 multiple-block read.) -/
-theorem session_multi_eq_singles (kind : Kind) (csd : List UInt8) (ncr nac busy initPolls : Nat)
+theorem session_multi_eq_singles (kind : Kind) (csd : List UInt8) (ncr nac busy initPolls gap : Nat)
     (hncr : ncr ≤ DEFAULT_COMMAND_RETRIES) (hnac : nac ≤ DEFAULT_READ_RETRIES)
-    (hbusy : busy ≤ DEFAULT_WRITE_RETRIES) (hpolls : initPolls ≤ DEFAULT_COMMAND_RETRIES)
-    (s : St Card) (hbus : s.bus = Spec.Card.mk kind csd ncr nac busy initPolls) (hct : s.cardType = none)
+    (hbusy : busy ≤ DEFAULT_WRITE_RETRIES) (hpolls : initPolls ≤ DEFAULT_COMMAND_RETRIES) (hgap : gap ≤ 1)
+    (s : St Card) (hbus : s.bus = Spec.Card.mk kind csd ncr nac busy initPolls gap) (hct : s.cardType = none)
     (calls : List Call) (hlegal : ∀ c ∈ calls, Legal kind csd c)
     (hbr : busy ≤ DEFAULT_COMMAND_RETRIES ∨ MultiReadsLast calls) :
     ∃ as₁ s₁ as₂ s₂, runSession cardBus calls s = (.ok as₁, s₁) ∧
@@ -337,9 +365,9 @@ theorem session_multi_eq_singles (kind : Kind) (csd : List UInt8) (ncr nac busy 
       blocksOf as₁ = blocksOf as₂ ∧ infoOf as₁ = infoOf as₂ ∧
       (∀ j, getBlock s₁.bus j = getBlock s₂.bus j) ∧ s₁.bus.violations = [] ∧ s₂.bus.violations = [] := by
   have hleg' := Lemmas.SdSession.legal_expandAll kind csd calls (fun c hc => (legal_iff kind csd c).1 (hlegal c hc))
-  obtain ⟨s₁, h1, m1, v1, _⟩ := session_correct kind csd ncr nac busy initPolls hncr hnac hbusy hpolls s hbus hct
+  obtain ⟨s₁, h1, m1, v1, _⟩ := session_correct kind csd ncr nac busy initPolls gap hncr hnac hbusy hpolls hgap s hbus hct
     calls hlegal hbr
-  obtain ⟨s₂, h2, m2, v2, _⟩ := session_correct kind csd ncr nac busy initPolls hncr hnac hbusy hpolls s hbus hct
+  obtain ⟨s₂, h2, m2, v2, _⟩ := session_correct kind csd ncr nac busy initPolls gap hncr hnac hbusy hpolls hgap s hbus hct
     (expandAll calls) (fun c hc => (legal_iff kind csd c).2 (by rw [expandAll_eq] at hc; exact (hleg' c hc).1))
     (Or.inr ((multiReadsLast_iff _).2 (by
       rw [expandAll_eq]; exact Lemmas.SdSession.multiReadsLast_of_none _ (fun c hc => (hleg' c hc).2))))
@@ -393,16 +421,19 @@ example (s : St Card) (hbus : s.bus = Spec.Card.mk .SDHC (Spec.Card.csdV2 3) 8 1
     ∃ s', runSession cardBus demoSession s =
       (.ok [.unit, .blocks [demoBlock 2, demoBlock 3], .num 4096, .unit, .ctype (some .SDHC), .blocks [demoBlock 9],
         .num 2097152, .blocks [zeros512, zeros512, zeros512]], s') ∧ s'.bus.violations = [] := by
-  obtain ⟨s', h, _, hv, _⟩ := session_correct .SDHC (Spec.Card.csdV2 3) 8 100 3 1000 (by decide) (by decide) (by decide)
-    (by decide) s hbus hct demoSession (demoSession_legal .SDHC (by decide)) (Or.inl (by decide))
+  obtain ⟨s', h, _, hv, _⟩ := session_correct .SDHC (Spec.Card.csdV2 3) 8 100 3 1000 0 (by decide) (by decide)
+    (by decide) (by decide) (by decide) s hbus hct demoSession (demoSession_legal .SDHC (by decide))
+    (Or.inl (by decide))
   exact ⟨s', h, hv⟩
 
 /-- A slow version-1 card (busy for 20000 bytes after programming and after CMD12: more than the
-command budget): a session whose only multiple-block read is its last call. -/
+command budget) that takes one byte to signal busy after a stop (`stopGap = 1`): a session whose
+only multiple-block read is its last call. -/
 def slowSession : List Call :=
   [.write [demoBlock 1] 5, .write [demoBlock 2, demoBlock 3] 6, .read 1 6, .numBlocks, .read 2 5]
 
-example (s : St Card) (hbus : s.bus = Spec.Card.mk .SD1 (Spec.Card.csdV1 4095 7) 8 100 20000 0) (hct : s.cardType = none) :
+example (s : St Card) (hbus : s.bus = Spec.Card.mk .SD1 (Spec.Card.csdV1 4095 7) 8 100 20000 0 1)
+    (hct : s.cardType = none) :
     ∃ s', runSession cardBus slowSession s =
       (.ok [.unit, .unit, .blocks [demoBlock 2], .num 2097152, .blocks [demoBlock 1, demoBlock 2]], s') ∧
       s'.bus.violations = [] := by
@@ -420,8 +451,8 @@ example (s : St Card) (hbus : s.bus = Spec.Card.mk .SD1 (Spec.Card.csdV1 4095 7)
     · exact ⟨by omega, by omega, by decide, by decide⟩
     · exact ⟨by decide, fun _ => by decide, fun h => absurd (by decide) h⟩
     · exact ⟨by omega, by omega, by decide, by decide⟩
-  obtain ⟨s', h, _, hv, _⟩ := session_correct .SD1 (Spec.Card.csdV1 4095 7) 8 100 20000 0 (by decide) (by decide)
-    (by decide) (by decide) s hbus hct slowSession hleg
+  obtain ⟨s', h, _, hv, _⟩ := session_correct .SD1 (Spec.Card.csdV1 4095 7) 8 100 20000 0 1 (by decide) (by decide)
+    (by decide) (by decide) (by decide) s hbus hct slowSession hleg
     (Or.inr ⟨fun h => (by cases h), fun h => (by cases h), fun h => (by cases h), fun h => (by cases h),
       fun _ => rfl, trivial⟩)
   exact ⟨s', h, hv⟩
